@@ -5,6 +5,7 @@ package main
 
 import (
 	"context"
+	"encoding/json"
 	"flag"
 	"fmt"
 	"math/rand"
@@ -119,7 +120,183 @@ func maxRV(s *simapi.Server) int {
 	return m
 }
 
+// ---- scripted mode: request sequences emitted by TLC from spec/MCKubeAPI.tla
+
+type request struct {
+	Verb   string   `json:"verb"`
+	Sub    string   `json:"sub"`
+	Dry    bool     `json:"dry"`
+	Inj    string   `json:"inj"`
+	RvMode string   `json:"rvmode"`
+	F1     string   `json:"f1"`
+	F2     string   `json:"f2"`
+	St     string   `json:"st"`
+	Fins   []string `json:"fins"`
+	Ctrls  int      `json:"ctrls"`
+	Mgr    string   `json:"mgr"`
+	Force  bool     `json:"force"`
+}
+
+func keepOr(v, stored string) string {
+	if v == "keep" {
+		return stored
+	}
+	return v
+}
+
+// scripted replays one request sequence on a fresh server; one trace record per request.
+func scripted(tw *trace.Writer, id string, reqs []request, counts map[string]int) {
+	ctx := context.Background()
+	s := simapi.NewServer(runtime.NewScheme())
+	c := simapi.NewClient(s, "t")
+	var inj simapi.Decision
+	c.Intercept = func(*simapi.Call) simapi.Decision { return inj }
+	const name = "x"
+	hiRV := 0
+	for _, r := range reqs {
+		c.BeginReconcile()
+		pre := s.Peek(key(name))
+		if m := maxRV(s); m > hiRV {
+			hiRV = m
+		}
+		inj = map[string]simapi.Decision{"": simapi.Proceed, "error": simapi.FailError, "conflict": simapi.FailConflict,
+			"crashBefore": simapi.CrashBefore, "crashAfter": simapi.CrashAfter}[r.Inj]
+		preAbs := abstract(pre)
+		cur := 0
+		if pre != nil {
+			cur = atoi(pre.GetResourceVersion())
+		}
+		reqRV := 0
+		switch r.RvMode {
+		case "cur":
+			reqRV = cur
+		case "stale":
+			reqRV = 99
+			if cur > 1 {
+				reqRV = cur - 1
+			}
+		}
+		// the request body: what the model's ReqOf says, built on a copy of the stored object (or a fresh one)
+		base := thing(name)
+		if pre != nil {
+			base = pre.DeepCopy()
+		}
+		base.SetResourceVersion("")
+		if reqRV != 0 {
+			base.SetResourceVersion(strconv.Itoa(reqRV))
+		}
+		f1, f2, st := keepOr(r.F1, preAbs["f1"].(string)), keepOr(r.F2, preAbs["f2"].(string)), keepOr(r.St, preAbs["st"].(string))
+		fins := r.Fins
+		if len(fins) == 1 && fins[0] == "keep" {
+			fins = nil
+			for _, x := range preAbs["fins"].([]any) {
+				fins = append(fins, x.(string))
+			}
+		}
+		if fins == nil {
+			fins = []string{}
+		}
+		ors := []metav1.OwnerReference{}
+		for i := 0; i < r.Ctrls; i++ {
+			ors = append(ors, metav1.OwnerReference{APIVersion: "v1", Kind: "O", Name: fmt.Sprintf("o%d", i+1), UID: types.UID(fmt.Sprintf("o%d", i+1)), Controller: ptr.To(true)})
+		}
+		ctrl := "none"
+		if r.Ctrls >= 1 {
+			ctrl = "o1"
+		}
+		req := map[string]any{"rv": reqRV, "ctrls": r.Ctrls, "ctrl": ctrl, "fins": strs(fins), "f1": f1, "f2": f2, "st": st}
+		dryOpt := func() []client.PatchOption {
+			if r.Dry {
+				return []client.PatchOption{client.DryRunAll}
+			}
+			return nil
+		}
+		switch {
+		case r.Verb == "get":
+			_ = c.Get(ctx, types.NamespacedName{Name: name}, thing(name))
+		case r.Verb == "create":
+			o := thing(name)
+			setf(o, f1, "spec", "f1")
+			setf(o, f2, "spec", "f2")
+			setf(o, st, "status", "s")
+			o.SetFinalizers(fins)
+			o.SetOwnerReferences(ors)
+			if r.Dry {
+				_ = c.Create(ctx, o, client.DryRunAll)
+			} else {
+				_ = c.Create(ctx, o)
+			}
+		case r.Verb == "update":
+			o := base
+			setf(o, f1, "spec", "f1")
+			setf(o, f2, "spec", "f2")
+			setf(o, st, "status", "s")
+			o.SetFinalizers(fins)
+			o.SetOwnerReferences(ors)
+			var uo []client.UpdateOption
+			var so []client.SubResourceUpdateOption
+			if r.Dry {
+				uo, so = append(uo, client.DryRunAll), append(so, client.DryRunAll)
+			}
+			if r.Sub == "status" {
+				_ = c.Status().Update(ctx, o, so...)
+			} else {
+				_ = c.Update(ctx, o, uo...)
+			}
+		case r.Verb == "patch-merge":
+			o := thing(name)
+			unstructured.RemoveNestedField(o.Object, "spec")
+			p := `{"spec":{"f1":` + jsonVal(f1) + `}}`
+			if reqRV != 0 {
+				p = `{"metadata":{"resourceVersion":"` + strconv.Itoa(reqRV) + `"},"spec":{"f1":` + jsonVal(f1) + `}}`
+			}
+			_ = c.Patch(ctx, o, client.RawPatch(types.MergePatchType, []byte(p)), dryOpt()...)
+		case r.Verb == "delete":
+			o := thing(name)
+			unstructured.RemoveNestedField(o.Object, "spec")
+			var dopts []client.DeleteOption
+			if reqRV != 0 {
+				dopts = append(dopts, client.Preconditions{ResourceVersion: ptr.To(strconv.Itoa(reqRV))})
+			}
+			if r.Dry {
+				dopts = append(dopts, client.DryRunAll)
+			}
+			_ = c.Delete(ctx, o, dopts...)
+		case r.Verb == "patch-apply":
+			o := thing(name)
+			f1, f2 = r.F1, r.F2 // an apply asserts exactly what it names ("-" = not asserted)
+			req["f1"], req["f2"] = f1, f2
+			setf(o, f1, "spec", "f1")
+			setf(o, f2, "spec", "f2")
+			if reqRV != 0 {
+				o.SetResourceVersion(strconv.Itoa(reqRV))
+			}
+			po := append([]client.PatchOption{client.FieldOwner(r.Mgr)}, dryOpt()...)
+			if r.Force {
+				po = append(po, client.ForceOwnership)
+			}
+			_ = c.Patch(ctx, o, client.Apply, po...)
+		default:
+			panic("unknown verb " + r.Verb)
+		}
+		ev := s.Log[len(s.Log)-1]
+		post := s.Peek(key(name))
+		op := map[string]any{"verb": r.Verb, "sub": r.Sub, "dry": r.Dry && r.Verb != "get", "injected": ev.Injected, "outcome": ev.Outcome, "req": req,
+			"mgr": r.Mgr, "force": r.Force, "maxrv": hiRV}
+		if ev.Injected == "crashAfter" {
+			op["injected"] = ""
+			if ev.Outcome == "dropped" {
+				op["outcome"] = "ok"
+			}
+		}
+		op["identical"] = identical(pre, post)
+		tw.Emit(map[string]any{"ev": "call", "scenario": id, "pre": preAbs, "post": abstract(post), "op": op})
+		counts[r.Verb+"/"+fmt.Sprint(op["outcome"])]++
+	}
+}
+
 func main() {
+	scenarios := flag.String("scenarios", "", "NDJSON file of {id, hist: [request...]} (scripted mode); empty = random mode")
 	tracePath := flag.String("trace", "", "output trace")
 	sumPath := flag.String("summary", "", "summary")
 	seed := flag.Int64("seed", 1, "seed")
@@ -134,6 +311,28 @@ func main() {
 	rng := rand.New(rand.NewSource(*seed))
 	ctx := context.Background()
 	counts := map[string]int{}
+	if *scenarios != "" {
+		raws, err := scen.Load(*scenarios)
+		if err != nil {
+			fmt.Fprintln(os.Stderr, err)
+			os.Exit(2)
+		}
+		for _, raw := range raws {
+			var sc struct {
+				ID   string    `json:"id"`
+				Hist []request `json:"hist"`
+			}
+			if err := json.Unmarshal(raw, &sc); err != nil {
+				fmt.Fprintln(os.Stderr, "bad scenario:", err)
+				os.Exit(2)
+			}
+			tw.Boundary()
+			scripted(tw, sc.ID, sc.Hist, counts)
+		}
+		_ = tw.Close()
+		_ = scen.WriteJSON(*sumPath, map[string]any{"runs": len(raws), "events": tw.Lines, "counts": counts})
+		return
+	}
 	for r := 0; r < *runs; r++ {
 		s := simapi.NewServer(runtime.NewScheme())
 		c := simapi.NewClient(s, "t")
